@@ -110,9 +110,13 @@ Definition model_verdict (ps : list path) : label * Z :=
    (EvCb j) may run at any moment after the submission, in any order.  With --early-exit a
    callback that records a valid counterexample sets the shutdown flag; from then on every
    callback reads its result as err (_get_solver_output), the main loop breaks at its next
-   check, and PopenExecutor.submit raises ShutdownError -- which, in the synchronous stuck
-   path solve, nobody catches: the exception leaves run_test (MCrashed) and run_tests
-   reports raised_label / raised_exitcode. *)
+   check, and PopenExecutor.submit raises ShutdownError.  What that does to the synchronous
+   solve of a stuck path is read off the source (Gen/GenVerdict.v): with a bare call
+   (stuck_shutdown_escapes = true) the exception leaves run_test (MCrashed) and run_tests reports
+   raised_label / raised_exitcode; with the `except ShutdownError: break` handler the path loop
+   ends (MDone).  Any other exception of that solve (unparsable model text, Popen failure) either
+   leaves run_test as well (stuck_exception_escapes = true) or is turned into a
+   SolverOutput.from_error output, whose class is from_error_class. *)
 
 Inductive mstate := MCheck | MBody | MDone | MCrashed.
 
@@ -132,7 +136,7 @@ Definition init (ps : list path) : st := mkst MCheck ps 0 false [] [] 0 0.
 (* EvMain: the main thread takes its next step.  EvMainRaise: the same, but if that step is the
    synchronous solve of a stuck path whose solver call fails (truthful answer Err), the failure
    surfaces as an exception inside solve_low_level (unparsable model text, Popen failure)
-   instead of an `err` result -- and, like ShutdownError, leaves run_test. *)
+   instead of an `err` result. *)
 Inductive event := EvMain | EvMainRaise | EvCb (j : nat).
 
 Fixpoint take (j : nat) (l : list (nat * answer)) : option (answer * list (nat * answer)) :=
@@ -145,6 +149,11 @@ Fixpoint take (j : nat) (l : list (nat * answer)) : option (answer * list (nat *
 
 Definition set_mst (s : st) (m : mstate) : st :=
   mkst m (todo s) (nextid s) (flag s) (pending s) (outs s) (nstuck s) (normal s).
+
+(* the stuck arm after its solver output (result class a) is known: count the path unless refuted *)
+Definition stuck_solved (s : st) (rest : list path) (a : answer) : st :=
+  mkst MCheck rest (S (nextid s)) (flag s) (pending s) (outs s)
+       (if stuck_counted (is_unsat a) then S (nstuck s) else nstuck s) (normal s).
 
 Definition step_main (s : st) : st :=
   match mst s with
@@ -161,9 +170,9 @@ Definition step_main (s : st) : st :=
           | ASubmit =>
               mkst MCheck rest (S (nextid s)) (flag s) (pending s ++ [(nextid s, ans p)]) (outs s) (nstuck s) (normal s)
           | AStuckSolve =>
-              if flag s then set_mst s MCrashed  (* ShutdownError from executor.submit escapes *)
-              else mkst MCheck rest (S (nextid s)) (flag s) (pending s) (outs s)
-                        (if stuck_counted (is_unsat (ans p)) then S (nstuck s) else nstuck s) (normal s)
+              if flag s then   (* PopenExecutor.submit raises ShutdownError *)
+                set_mst s (if stuck_shutdown_escapes then MCrashed else MDone)
+              else stuck_solved s rest (ans p)
           | ACountNormal =>
               mkst MCheck rest (S (nextid s)) (flag s) (pending s) (outs s) (nstuck s) (S (normal s))
           | ANone =>
@@ -188,9 +197,14 @@ Definition step_cb (early_exit : bool) (j : nat) (s : st) : st :=
 
 Definition step_main_raise (s : st) : st :=
   match mst s, todo s with
-  | MBody, p :: _ =>
+  | MBody, p :: rest =>
       match kind_action (kind p) with
-      | AStuckSolve => if is_err (ans p) then set_mst s MCrashed else step_main s
+      | AStuckSolve =>
+          if flag s then step_main s   (* the executor refuses the job first: ShutdownError *)
+          else if is_err (ans p) then
+            if stuck_exception_escapes then set_mst s MCrashed
+            else stuck_solved s rest (answer_of_class from_error_class true)   (* except Exception: from_error *)
+          else step_main s
       | _ => step_main s
       end
   | _, _ => step_main s
